@@ -26,6 +26,8 @@ mod aggregator;
 mod forge;
 #[path = "c20_parts/gadget.rs"]
 mod gadget;
+#[path = "c20_parts/ipa.rs"]
+mod ipa;
 
 use std::time::Instant;
 
@@ -263,12 +265,15 @@ fn main() {
     );
     rep.assume("SRS: seeded ParamsKZG::unsafe_setup (trapdoor known to nobody in the run); negligible-probability acceptance of a mutated proof is ignored");
     rep.assume("inner proofs for the aggregator are made with a harness mirror of the aggregator's private LightPoseidonFS hash; a mismatch shows up as inconclusive");
-    rep.assume("ipa_prove/ipa_verify are private: the inner-product argument is reached only through LightAggregator::{aggregate_proofs, verify}");
+    rep.assume("ipa_prove/ipa_verify are exercised directly through the verif-hooks re-export and indirectly through LightAggregator::{aggregate_proofs, verify}");
     rep.assume("verifier gadget: mock level only (reference evaluator ∧ MockProver at k=18); claims other than the first of a run are evaluated on the constraints that read a changed instance cell (the witness does not depend on the instance)");
     let part = ctx.extra.get("part").cloned().unwrap_or_default();
     let mut complete = true;
     if part.is_empty() || part == "b" {
         complete &= part_b(&ctx, &mut rep);
+    }
+    if part.is_empty() || part == "c" {
+        ipa::run(&ctx, &mut rep);
     }
     if part.is_empty() || part == "a" {
         complete &= part_a(&ctx, &mut rep);
